@@ -34,6 +34,11 @@ func NewJavaAPIListener(jIdentMap map[string]core_domain.CodeDataStruct, diMap m
 
 	imports = nil
 	restAPIs = nil
+	baseApiUrl = ""
+	hasEnterClass = false
+	hasEnterRestController = false
+	requestBodyClass = ""
+	localVars = make(map[string]string)
 
 	identMap = jIdentMap
 
